@@ -4,6 +4,7 @@ mod core_mp;
 mod core_pp;
 mod crash;
 mod db;
+mod delta;
 mod flock;
 mod image;
 mod seglog;
@@ -61,6 +62,8 @@ fn main() {
         "seglog" => seglog::run(seed, cases, &mut sink),
         "triepos" => triepos::run(seed, cases, &mut sink),
         "shards" => shards::run(seed, cases, &mut sink),
+        "delta" => delta::run(seed, cases, &mut sink),
+        "delta-log" => delta::run_log(seed, cases, &mut sink),
         "core-pp" => core_pp::run(seed, cases, &mut sink),
         "core-mp" => core_mp::run(seed, cases, &mut sink),
         "core-mp-corpus" => {
